@@ -151,9 +151,15 @@ fn borrowed(g: &mut Gen, st: &mut Stats) -> CaseResult {
 fn c18<T>(g: &mut Gen, st: &mut Stats, name: &'static str) -> CaseResult
 where T: Encode<()> + for<'b> Decode<'b, ()> + Serialize + DeserializeOwned + Arb + Same + Debug
 {
+    let v = T::arb(g);
+    c18_value(v, g, st, name)
+}
+
+fn c18_value<T>(v: T, g: &mut Gen, st: &mut Stats, name: &'static str) -> CaseResult
+where T: Encode<()> + for<'b> Decode<'b, ()> + Serialize + DeserializeOwned + Same + Debug
+{
     scoped(name, || {
         st.eval();
-        let v = T::arb(g);
         let native = minicbor::to_vec(&v).map_err(|e| vcore::Fail::new("native-encode", e.to_string()))?;
         let bridge = minicbor_serde::to_vec(&v).map_err(|e| vcore::Fail::new("bridge-encode", e.to_string()))?;
         ensure!(native == bridge, "bytes-differ", "{:?}: native encoding {} but the serde bridge writes {}", v, short_hex(&native), short_hex(&bridge));
@@ -204,6 +210,19 @@ c18_types!(
     Box<u64>, Box<Vec<u16>>, std::num::Wrapping<u32>, std::num::NonZeroU8, std::num::NonZeroI64, std::marker::PhantomData<u8>,
 );
 
+/// Long documents in the shared model: cumulative effects need hundreds to thousands of elements to show.
+fn c18_long(g: &mut Gen, st: &mut Stats) -> CaseResult {
+    use std::collections::BTreeMap;
+    let n = *g.pick(&[130usize, 300, 1000, 2500]) + g.below(7);
+    match g.below(5) {
+        0 => c18_value::<Vec<Option<u16>>>((0 .. n).map(|i| if g.chance(200) || i % 97 == 0 { None } else { Some(g.u16()) }).collect(), g, st, "long Vec<Option<u16>>"),
+        1 => c18_value::<Vec<()>>(vec![(); n], g, st, "long Vec<()>"),
+        2 => c18_value::<BTreeMap<u32, Option<String>>>((0 .. n as u32).map(|i| (i * 3, if g.chance(180) { None } else { Some(g.string(6)) })).collect(), g, st, "long BTreeMap<u32,Option<String>>"),
+        3 => c18_value::<Vec<Vec<Option<bool>>>>((0 .. n / 8).map(|_| (0 .. 8).map(|_| if g.bool() { None } else { Some(g.bool()) }).collect()).collect(), g, st, "long Vec<Vec<Option<bool>>>"),
+        _ => c18_value::<Vec<(u8, Option<String>, [u8; 2])>>((0 .. n / 2).map(|_| (g.u8(), if g.bool() { None } else { Some(g.string(4)) }, [g.byte(), g.byte()])).collect(), g, st, "long Vec<(u8,Option<String>,[u8;2])>")
+    }
+}
+
 fn subs() -> Vec<Sub> {
     vec![
         Sub { prop: "C17", name: "family", rule: "value of one of 48 serde types (all primitives <= 64 bit, char, strings, serialize_bytes buffers, options, unit, unit/newtype/tuple/named structs, seqs, tuples, arrays, maps, externally/internally/adjacently/un-tagged enums, flatten, skip_serializing_if, renames, unknown-length seq/map, 25-field struct): bytes == independent model serializer (documented representation) and one well-formed item; from_slice == value with exact consumption (junk follows); wider heads -> same value; indefinite containers / chunked strings -> same value or error; unknown extra struct entry ignored; distinct by (type, bytes)",
@@ -212,6 +231,8 @@ fn subs() -> Vec<Sub> {
               kind: Kind::Random { quick: 150_000, thorough: 600_000, tape: 128, f: adjacent_sub } },
         Sub { prop: "C17", name: "borrowed", rule: "&str and &[u8] fields deserialise from text / byte strings as slices of the input",
               kind: Kind::Random { quick: 100_000, thorough: 400_000, tape: 256, f: borrowed } },
+        Sub { prop: "C18", name: "long-documents", rule: "sequences / maps / nested sequences of 130-2500 elements (many None, unit, tuple and array elements) in the shared model: the same oracle as shared-model; cumulative effects (depth or element counters, budgets) need this many elements to show",
+              kind: Kind::Random { quick: 3_000, thorough: 60_000, tape: 16384, f: c18_long } },
         Sub { prop: "C18", name: "shared-model", rule: "value of one of 52 types in the data model shared by both codecs: minicbor::to_vec == minicbor_serde::to_vec; each side's bytes decode through the other side to the value; re-framed encodings (wider heads: both must accept; indefinite containers / chunked strings) never yield two different values or a value different from the model's; distinct by (type, bytes)",
               kind: Kind::Random { quick: 1_500_000, thorough: 10_000_000, tape: 1024, f: c18_shared } },
     ]
